@@ -264,7 +264,7 @@ pub fn run(tier: Tier) -> i32 {
                             machinery.fetch_add(1, Relaxed);
                             return false;
                         }
-                        let script = if c.script.len() > 300 { format!("{}…", &c.script[..300]) } else { c.script.clone() };
+                        let script = if c.script.chars().count() > 300 { format!("{}…", c.script.chars().take(300).collect::<String>()) } else { c.script.clone() };
                         ctx.violation(
                             &format!("c14:{key}"),
                             &what,
@@ -297,7 +297,7 @@ pub fn run(tier: Tier) -> i32 {
             }
         }
         samples.offer(|| {
-            let script = if c.script.len() > 120 { format!("{}…", &c.script[..120]) } else { c.script.clone() };
+            let script = if c.script.chars().count() > 120 { format!("{}…", c.script.chars().take(120).collect::<String>()) } else { c.script.clone() };
             json!({"script": script, "expected": format!("{:?}", c.expected)})
         });
     });
